@@ -85,6 +85,8 @@ structure CustomImpl (V : Type) where
   /-- what the handler stores under each of its arguments when it reads its own output
   (specification data; `none` = nothing stored, the constructor default applies) -/
   eff : Obj V → String → Option (Val V) := fun _ _ => none
+  /-- the local names of the child elements the handler's `to_xml` may write (specification data) -/
+  childNames : List String := []
 
 inductive Property (V : Type) where
   | attr (adm arg : String) (c : Codec V) (required : Bool) (dflt : V)
